@@ -13,13 +13,13 @@ Status summary (see `C17_full` at the end). The LIVE model is the repaired worke
                                bf_pipe_refines, bf_counter_inv, bf_no_early_exit, bf_exactly_once,
                                bf_error_cancels, bf_return_joins_workers, bf_return_no_goroutine_left,
                                bf_live_ctx_error_recorded,
-                               bf_measure (every step decreases the bound), bf_terminates,
+                               bf_measure (every step decreases the bound), bf_terminates, bf_reaches_return,
                                limit_skip_window, range_partition_exact
   about the OLD protocol     : bf_terminates_refuted_old (witness of finding F14: the hang that was
                                reproduced on the code before the repair), bf_terminates_partial_old,
                                c17_full_old_refuted
   sequential helpers         : seq_helper_eq_spec and its instances traversePaths_eq_spec, terminals_eq_spec,
-                               acyclicNodes_eq_spec, intermediaryPaths_eq_spec (result = skip/limit window
+                               acyclicNodes_eq_spec, acyclicNodes_reachable_spec, intermediaryPaths_eq_spec (result = skip/limit window
                                of the FILTERED DFS candidate sequence, all graphs/filters/skip/limit)
                                traversePaths_order_eq_spec, paths_fit_finite, c17_seq_paths (the DFS candidate
                                order of TraversePaths = the recursive path definition on every finite graph)
@@ -152,6 +152,30 @@ theorem bf_terminates (cfg : Cfg) (hn : 1 ≤ cfg.n) (hf : cfg.fixed = true) (s 
     ∃ a s', Act.isEnv a = false ∧ s.step cfg a = some s' ∧ s'.μ cfg < s.μ cfg := by
   obtain ⟨a, s', he, hs⟩ := progress hn hf (reach_inv h) (reach_inv2 h) hnr
   exact ⟨a, s', he, hs, measure_step hs⟩
+
+/-- Termination, packaged: from EVERY reachable state of the live protocol (whatever has happened so far:
+success path, a driver / visitor / memory-limit error at any call, a cancellation at any point) there
+is a continuation using no environment action that ends with BreadthFirst returned; by `bf_measure`
+every run is finite, so every maximal run is such a continuation. -/
+theorem bf_reaches_return (cfg : Cfg) (hn : 1 ≤ cfg.n) (hf : cfg.fixed = true) :
+    ∀ s, BF.Reach cfg s → ∃ acts s', acts.all (fun a => !Act.isEnv a) = true ∧ BF.run cfg s acts = some s' ∧
+      ∃ z, s'.coord = .ret z := by
+  have key : ∀ m s, s.μ cfg = m → BF.Reach cfg s → ∃ acts s', acts.all (fun a => !Act.isEnv a) = true ∧
+      BF.run cfg s acts = some s' ∧ ∃ z, s'.coord = .ret z := by
+    intro m
+    induction m using Nat.strong_induction_on with
+    | _ m ih =>
+      intro s hm hr
+      by_cases hret : ∃ z, s.coord = .ret z
+      · exact ⟨[], s, rfl, rfl, hret⟩
+      · have hnr : ∀ z, s.coord ≠ .ret z := fun z hz => hret ⟨z, hz⟩
+        obtain ⟨a, s1, he, hs, hlt⟩ := bf_terminates cfg hn hf s hr hnr
+        obtain ⟨acts, s', hall, hrun, hz⟩ := ih (s1.μ cfg) (by omega) s1 rfl (BF.Reach.step hr hs)
+        refine ⟨a :: acts, s', ?_, ?_, hz⟩
+        · simp [List.all_cons, he, hall]
+        · simp [BF.run, hs, hrun]
+  intro s hr
+  exact key _ s rfl hr
 
 /-- The protocol BEFORE the repair (`cfg.fixed` arbitrary, in particular `false`) terminates along
 schedules in which the driver never returns an error that `errors.Is` context.Canceled /
@@ -394,6 +418,54 @@ theorem acyclicNodes_eq_spec (p : Seq.Plan) (hp : p.helper = .nodes) (root : Nat
           simp only [Seq.offeredByDescent, Bool.and_eq_true] at this
           exact this.2
       · exact ih c' s h
+
+/-- AcyclicTraverseNodes, independent characterisation of its candidate set (no user descent filter): once
+the DFS has emptied its stack, a node is a candidate iff the node filter accepts it and it is reachable
+from the root over at least one edge (a successor of a reachable node). With `acyclicNodes_eq_spec` the
+returned set is the root (if accepted) plus the skip/limit window of that candidate sequence; without
+skip/limit it is exactly the accepted reachable node set.
+HYPOTHESIS `hdone`: the tracker-free DFS finished within `fuel` (true on every finite graph; the tie
+reports `model-out-of-fuel` otherwise). -/
+theorem acyclicNodes_reachable_spec (p : Seq.Plan) (hp : p.helper = .nodes) (hd : p.descentFilter = none)
+    (root fuel : Nat)
+    (hdone : (Seq.accRun p fuel { stack := [{ root := root, steps := [] }], visited := [] } []).1.stack = []) :
+    ∀ v, v ∈ (Seq.events p fuel { stack := [{ root := root, steps := [] }], visited := [] }).map Seq.Seg.node ↔
+      (Seq.optAccept p.nodeFilter v = true ∧ ∃ u, Seq.Reachable p.adj root u ∧ v ∈ Seq.succs p.adj u) := by
+  have h0 : Seq.NInv p root { stack := [{ root := root, steps := [] }], visited := [] } [] := by
+    refine ⟨?_, ?_, ?_, ?_, ?_⟩
+    · intro s hs; simp at hs; subst hs; exact Seq.Reachable.refl
+    · intro u hu; cases hu
+    · intro u hu; cases hu
+    · intro v; simp
+    · right; exact ⟨_, List.mem_singleton.mpr rfl, rfl⟩
+  have hi := Seq.ninv_run p hp hd root fuel _ _ h0
+  have hacc := Seq.accRun_events p fuel { stack := [{ root := root, steps := [] }], visited := [] } []
+  simp only [List.nil_append] at hacc
+  -- with an empty stack the visited set is closed under successors and contains the root
+  have hclosed : ∀ u, Seq.Reachable p.adj root u →
+      u ∈ (Seq.accRun p fuel { stack := [{ root := root, steps := [] }], visited := [] } []).1.visited := by
+    intro u hu
+    induction hu with
+    | refl =>
+      rcases hi.root with h | ⟨s, hs, _⟩
+      · exact h
+      · rw [hdone] at hs; cases hs
+    | step _ hv ih =>
+      rcases hi.closed _ ih _ hv with h | ⟨s, hs, _⟩
+      · exact h
+      · rw [hdone] at hs; cases hs
+  intro v
+  rw [← hacc, hi.offers v]
+  constructor
+  · rintro ⟨ha, u, hu, hv⟩; exact ⟨ha, u, hi.reachV u hu, hv⟩
+  · rintro ⟨ha, u, hu, hv⟩; exact ⟨ha, u, hclosed u hu, hv⟩
+
+/-- non-vacuity: a cycle with a tail, node filter rejecting 2: candidates = accepted nodes reachable over >= 1 edge -/
+example :
+    let p : Seq.Plan := { adj := fun n => if n = 0 then [(1, 1)] else if n = 1 then [(2, 2)] else if n = 2 then [(3, 0), (4, 3)] else [],
+                          helper := .nodes, nodeFilter := some (fun n => n != 2) }
+    (Seq.accRun p 10 { stack := [{ root := 0, steps := [] }], visited := [] } []).1.stack = [] ∧
+    (Seq.events p 10 { stack := [{ root := 0, steps := [] }], visited := [] }).map Seq.Seg.node = [1, 0, 3] := by decide
 
 /-- TraverseIntermediaryPaths: the returned paths, in order -/
 theorem intermediaryPaths_eq_spec (p : Seq.Plan) (_hp : p.helper = .intermediary) (root : Nat) (skip limit : Int) (fuel : Nat) :
